@@ -1,17 +1,161 @@
 package main
 
-// Case files for the Coq evaluator (Keystore/RunC15.v).
+// Case files for the Coq evaluator (Keystore/RunC15.v): the document as the encoding/json lexer delivers
+// it, the password, the oracle tables (filled by direct calls to x/crypto, crypto/aes, strconv and
+// google/uuid — never firefly-signer) and what ReadWalletFile did.
+
+import (
+	"crypto/sha256"
+	"fmt"
+	"sort"
+	"strconv"
+	"strings"
+
+	"github.com/google/uuid"
+	"golang.org/x/crypto/pbkdf2"
+	"golang.org/x/crypto/scrypt"
+
+	"verifharness/cv"
+)
+
+const coqHeader = "From Coq Require Import String List NArith ZArith Uint63.\nFrom FFS Require Import Base.Bytes Base.Lit Keystore.RunC15.\nImport ListNotations.\nOpen Scope string_scope. Open Scope N_scope."
 
 type emitter struct {
-	dir    string
-	shards int
-	n      int
+	w *cv.Writer
 }
 
-func newEmitter(dir string, shards int) *emitter { return &emitter{dir: dir, shards: shards} }
+func newEmitter(dir string, shards int) *emitter {
+	return &emitter{w: cv.NewWriter(dir, "C15", coqHeader, "case", "mismatches", shards)}
+}
 
-func (e *emitter) add(c tcase, tree *J, perr error, f *fields, o implOut, d desc) {}
+func (j *J) coq() string {
+	switch j.K {
+	case jNull:
+		return "DNull"
+	case jBool:
+		if j.B {
+			return "(DBool true)"
+		}
+		return "(DBool false)"
+	case jNum:
+		return "(DNum " + cv.CoqBytes([]byte(j.S)) + ")"
+	case jStr:
+		return "(DStr " + cv.CoqBytes([]byte(j.S)) + ")"
+	case jArr:
+		parts := make([]string, len(j.A))
+		for i, v := range j.A {
+			parts[i] = v.coq()
+		}
+		return "(DArr [" + strings.Join(parts, "; ") + "])"
+	default:
+		parts := make([]string, len(j.O))
+		for i, o := range j.O {
+			parts[i] = "(" + cv.CoqBytes([]byte(o.K)) + ", " + o.V.coq() + ")"
+		}
+		return "(DObj [" + strings.Join(parts, "; ") + "])"
+	}
+}
 
-func (e *emitter) count() int { return e.n }
+func (j *J) depth() int {
+	d := 0
+	for _, a := range j.A {
+		if x := a.depth(); x > d {
+			d = x
+		}
+	}
+	for _, o := range j.O {
+		if x := o.V.depth(); x > d {
+			d = x
+		}
+	}
+	return d + 1
+}
 
-func (e *emitter) flush() error { return nil }
+func (j *J) numbers(out map[string]bool) {
+	if j.K == jNum {
+		out[j.S] = true
+	}
+	for _, a := range j.A {
+		a.numbers(out)
+	}
+	for _, o := range j.O {
+		o.V.numbers(out)
+	}
+}
+
+func zlit(n int64) string {
+	if n < 0 {
+		return fmt.Sprintf("(%d)%%Z", n)
+	}
+	return fmt.Sprintf("%d%%Z", n)
+}
+
+func (e *emitter) add(c tcase, tree *J, perr error, f *fields, o implOut, d desc) bool {
+	doc := "None"
+	var tScrypt, tPbkdf2, tAes, tNum, tUUID []string
+	if perr == nil {
+		if tree.depth() > 64 {
+			return false // very deep nesting: left to the Go-side oracles
+		}
+		doc = "(Some " + tree.coq() + ")"
+		nums := map[string]bool{}
+		tree.numbers(nums)
+		lits := make([]string, 0, len(nums))
+		for l := range nums {
+			lits = append(lits, l)
+		}
+		sort.Strings(lits)
+		for _, l := range lits {
+			_, err := strconv.ParseFloat(l, 64)
+			tNum = append(tNum, fmt.Sprintf("(%s, %v)", cv.CoqBytes([]byte(l)), err == nil))
+		}
+		if tree.K == jObj {
+			seen := map[string]bool{}
+			for _, m := range tree.O {
+				if strings.EqualFold(m.K, "id") && m.V.K == jStr && m.V.S != "" && !seen[m.V.S] {
+					seen[m.V.S] = true
+					var u uuid.UUID
+					if err := u.UnmarshalText([]byte(m.V.S)); err != nil {
+						tUUID = append(tUUID, fmt.Sprintf("(%s, None)", cv.CoqBytes([]byte(m.V.S))))
+					} else {
+						tUUID = append(tUUID, fmt.Sprintf("(%s, Some %s)", cv.CoqBytes([]byte(m.V.S)), cv.CoqBytes(u[:])))
+					}
+				}
+			}
+		}
+		// KDF / AES tables: the library called directly on what the file declares, at the only derived-key
+		// length the repaired code and the specification ever ask for (32)
+		var dk []byte
+		if !f.tooExpensive() {
+			switch sv(f.kdf) {
+			case "scrypt":
+				if scryptParamsOK(iv(f.n), iv(f.r), iv(f.p)) {
+					k, err := scrypt.Key(c.Pw, f.salt, int(iv(f.n)), int(iv(f.r)), int(iv(f.p)), 32)
+					if err == nil {
+						dk = k
+						tScrypt = append(tScrypt, fmt.Sprintf("(%s, %s, %s, %s, %s, 32%%Z, %s)", cv.CoqBytes(c.Pw), cv.CoqBytes(f.salt),
+							zlit(iv(f.n)), zlit(iv(f.r)), zlit(iv(f.p)), cv.CoqBytes(k)))
+					}
+				}
+			case "pbkdf2":
+				if iv(f.c) >= 1 {
+					dk = pbkdf2.Key(c.Pw, f.salt, int(iv(f.c)), 32, sha256.New)
+					tPbkdf2 = append(tPbkdf2, fmt.Sprintf("(%s, %s, %s, 32%%Z, %s)", cv.CoqBytes(c.Pw), cv.CoqBytes(f.salt), zlit(iv(f.c)), cv.CoqBytes(dk)))
+				}
+			}
+		}
+		if dk != nil && len(f.iv) == 16 {
+			tAes = append(tAes, fmt.Sprintf("(%s, %s, %s, %s)", cv.CoqBytes(dk[:16]), cv.CoqBytes(f.iv), cv.CoqBytes(f.ciphertext),
+				cv.CoqBytes(aesCTR(dk[:16], f.iv, f.ciphertext))))
+		}
+	}
+	j := func(l []string) string { return "[" + strings.Join(l, "; ") + "]" }
+	tables := "{| t_scrypt := " + j(tScrypt) + "; t_pbkdf2 := " + j(tPbkdf2) + "; t_aes := " + j(tAes) + "; t_num := " + j(tNum) + "; t_uuid := " + j(tUUID) + " |}"
+	term := fmt.Sprintf("CRead %s %s %s %d%%nat %s", tables, doc, cv.CoqBytes(c.Pw), o.Cls, cv.CoqBytes(o.Key))
+	e.w.Add(term, d)
+	return true
+}
+
+func (e *emitter) count() int { return e.w.Count() }
+
+func (e *emitter) flush() error { return e.w.Flush() }
